@@ -7,6 +7,9 @@
 //
 //   {"k":"hdr","S":[..],"E":[..]}     column operands for "bin"/"nt" rows (S) and "ld" rows (E)
 //   {"k":"un","f":F,"base":b,"n":n}   unary F on the halves b, b+1, .., b+n-1
+//   {"k":"ux","f":F,"x":[..]}          unary F on the listed halves
+//   (an integer field "cr":1 is echoed like every other integer field: it tells HalfCheck.tla to judge the row against the
+//    enclosure of the real function, specs/HalfTrans.tla)
 //   {"k":"bin","f":F,"a":a}           binary F(a, S[j]) for every j
 //   {"k":"ld","f":F,"a":a}            F(a, E[j]) for ldexp/scalbn/scalbln
 //   {"k":"nt","f":"nexttoward","a":a} nexttoward(a, (long double)S[j] moved by -1/0/+1 long-double ulps)
@@ -413,6 +416,12 @@ int main()
             const std::string& f = req.str("f");
             half a = mk((unsigned)req.num("a"));
             for (size_t j = 0; j < S.size() && ok; ++j) ok = binary(f, a, mk((unsigned)S[j]), o);
+        }
+        else if (k == "ux")        // unary F on the listed halves x[0], x[1], ..
+        {
+            const std::string& f = req.str("f");
+            ivec x = req.ints("x");
+            for (size_t j = 0; j < x.size() && ok; ++j) ok = unary(f, mk((unsigned)x[j]), o);
         }
         else if (k == "ld")
         {
